@@ -217,6 +217,7 @@ func genOps(t *rapid.T) []op {
 }
 
 func TestPropQueueModel(t *testing.T) {
+	defer lib.Flush()
 	rapid.Check(t, func(t *rapid.T) {
 		capacity := rapid.IntRange(1, 6).Draw(t, "cap")
 		ops := genOps(t)
